@@ -471,6 +471,11 @@ func (s *reprovider) Reprovide(ctx context.Context) error {
 	if s.throughputCallback != nil && s.throughputMinimumProvides < batchSize {
 		batchSize = s.throughputMinimumProvides
 	}
+	if batchSize == 0 {
+		// A zero limit (MaxBatchSize(0) or ThroughputReport with a zero
+		// minimum) would never read from the key channel and loop forever.
+		batchSize = 1
+	}
 
 	cids := make(map[cid.Cid]struct{}, min(batchSize, 1024))
 	allCidsProcessed := false
